@@ -121,6 +121,7 @@ func runC04(s *core.Sim, tier string) RunInfo {
 		}
 	}
 	w.Disk.Park = s.Tape.Coin("park", 1, 2)
+	w.lowerParallelThreshold()
 	s.SchedDen = core.Pick(s.Tape, "sched-den", []int{1, 2, 4, 16})
 	nops := 8 + s.Tape.Draw("nops", 28)
 	if tier == "thorough" {
